@@ -91,6 +91,21 @@ def _apply_closure(prog, eff, clo_term, arg):
     if len(rts) != 1:
         return None
     _pb, lt = eff.lift(cb, deep_strip(rts[0][1]))
+    # captures the lift could not resolve (the closure of an inlined helper): the aggregate term itself lists what was captured
+    caps = clo_term[3] if len(clo_term) > 3 else ()
+
+    def cap(x):
+        if isinstance(x, tuple) and x and x[0] == 'field' and isinstance(x[2], str) and x[2].isdigit():
+            base = x[1]
+            while isinstance(base, tuple) and base and base[0] in ('deref', 'ref'):
+                base = base[1]
+            if isinstance(base, tuple) and base[:2] == ('param', 1) and int(x[2]) < len(caps):
+                return caps[int(x[2])]
+        if isinstance(x, tuple) and x and x[0] not in ('const', 'sym', 'fn', 'param', 'var', 'unknown'):
+            return map_children(x, cap)
+        return x
+    if caps:
+        lt = cap(lt)
     # the closure's own first argument is its local 2
     return _subst_closure_arg(cb, lt, arg)
 
